@@ -109,7 +109,7 @@ static std::string run_case(const KeySpec &k, const Rend &r, bool *nt = nullptr)
 
 int main(int argc, char **argv) {
   Args a = parse_args(argc, argv);
-  for (const char *n : {"rsa_2048", "rsa_3072", "rsa_4096", "rsa_2048b", "ec_p256", "ec_p384", "ec_p521", "ec_k256", "ed25519", "ed448", "rsa_2049", "rsa_2056"}) KEYS.push_back(load_fixture(n));
+  for (const char *n : {"rsa_2048", "rsa_3072", "rsa_4096", "rsa_2048b", "ec_p256", "ec_p384", "ec_p521", "ec_k256", "ed25519", "ed448", "rsa_2050", "rsa_2056"}) KEYS.push_back(load_fixture(n));
   size_t nfix = KEYS.size();
   cur_case() = [] { return rend_json(CURR, CURDOC); };
   Stats &st = stats();
